@@ -88,11 +88,23 @@ class UniformProbe:
         np.random.uniform = self.orig
 
 
-def random_reference(pa, rng, int_grid):
+def random_reference(pa, rng, int_grid, small=False):
+    """small: the whole reference on a scale of a few time units at most (times are multiples of 0.01, units well below 1 long):
+    nothing in the statement depends on the unit of time"""
     from pyannote.core import Segment
     n_ann = rng.randint(2, 5)
     c = pa.Continuum()
     span = rng.choice([10, 20, 40, 80])
+    if small:
+        for a in range(n_ann):
+            c.add_annotator(f"r{a}")
+            for _ in range(rng.randint(0 if a else 1, 5)):
+                s = rng.randint(0, span * 4)
+                e = s + rng.randint(1, span)
+                c.add(f"r{a}", Segment(round(s * 0.01, 2), round(e * 0.01, 2)), rng.choice(LABELS))
+        if rng.random() < 0.3:
+            c.reset_bounds()
+        return c
     hetero = rng.random() < 0.35       # one annotator with much longer units than the others (ground-truth subsets then differ
     long_one = rng.randrange(n_ann)    # from the whole reference in their average unit length)
     for a in range(n_ann):
@@ -121,15 +133,22 @@ def fx(x):
 def record_samples(pa, rng, count, rep):
     recs, metas = [], []
     labs = {None: 0, "x": 1, "y": 2, "zz": 3}
+    prev = {}
     with UniformProbe() as probe:
         while len(recs) < count:
             mode = rng.choice(["int_pivot", "float_pivot"])
-            ref = random_reference(pa, rng, int_grid=rng.random() < 0.5)
+            ref = random_reference(pa, rng, int_grid=rng.random() < 0.5, small=(mode == "float_pivot" and rng.random() < 0.3))
             anns = list(ref.annotators)
             gt = None
             if rng.random() < 0.5 and len(anns) > 2:
                 gt = sorted(rng.sample(anns, rng.randint(2, len(anns))))
-            sampler = pa.ShuffleContinuumSampler(pivot_type=mode)
+            # four times in ten the sampler object of an earlier reference (same pivot type) is initialised again on this one:
+            # the references share annotator names, nothing of the earlier one may show in the samples
+            if rng.random() < 0.4 and prev.get(mode) is not None:
+                sampler = prev[mode]
+            else:
+                sampler = pa.ShuffleContinuumSampler(pivot_type=mode)
+            prev[mode] = sampler
             try:
                 sampler.init_sampling(ref, gt)
             except AssertionError:
@@ -160,6 +179,9 @@ def record_samples(pa, rng, count, rep):
                 # int pivots on a reference whose times are exact in 1/1000: the arithmetic is exact, no tolerance (ties at the
                 # upper bound are then decided, not don't-care)
                 vals = [lo, hi] + [x for a in gta for u in ref[a] for x in (u.segment.start, u.segment.end)]
+                # (the sample's own times too: when no room is left the library falls back on a plain uniform draw, a
+                # fraction even in int mode - the case the statement excludes with "as long as the continuum is long enough")
+                vals += [x for a in smp.annotators for u in smp[a] for x in (u.segment.start, u.segment.end)]
                 if mode == "int_pivot" and all(abs(v * K - round(v * K)) < 1e-9 for v in vals):
                     rec["tol"] = 0
                 recs.append(rec)
